@@ -70,6 +70,7 @@ def units(tier):
         yield {"leg": "storage", "b": b}
     for b in range(2):
         yield {"leg": "meta", "b": b}
+    yield {"leg": "meta-cli"}
 
 
 # ---- shared read-back oracle ----------------------------------------------------------------
@@ -423,6 +424,66 @@ def _meta(R, b, only):
     R.sample({"leg": "meta", "metadata": [repr(m) for m in METADATA[:6]], "assemblies": ASSEMBLIES})
 
 
+def _meta_cli(R, only):
+    """--metadata <json file> and --assembly through `cooler load`, `cload pairs` and `cload tabix`"""
+    import os
+    import cooler
+    import pysam
+    bins = alpha.table_bins(((2, 2), (2,)), "chr")
+    d = scratch.sub(f"c01mc{os.getpid()}")
+    bed = os.path.join(d, "bins.bed")
+    with open(bed, "w") as fh:
+        for b in bins:
+            fh.write("\t".join(str(x) for x in b) + "\n")
+    coo = os.path.join(d, "in.coo")
+    open(coo, "w").write("0\t0\t3\n0\t2\t5\n1\t1\t2\n")
+    pairs = os.path.join(d, "in.pairs")
+    open(pairs, "w").write("r1\tchr2\t0\tchr2\t1\nr2\tchr2\t2\tchr10\t0\nr3\tchr2\t3\tchr10\t1\n")
+    txt = os.path.join(d, "t.txt")
+    open(txt, "w").write("chr2\t0\t+\tchr2\t1\t-\nchr2\t2\t+\tchr10\t0\t-\nchr2\t3\t+\tchr10\t1\t-\n")
+    gz = txt + ".gz"
+    pysam.tabix_compress(txt, gz, force=True)
+    pysam.tabix_index(gz, seq_col=0, start_col=1, end_col=1, zerobased=True, force=True)
+    R.add("states")
+    R.add("traces")
+    kk = 0
+    for mi, md in enumerate(METADATA[1:9]):
+        mf = os.path.join(d, f"m{mi}.json")
+        json.dump(md, open(mf, "w"))
+        for asm in ("hg19", "Zß", None):
+            for cmd in ("load", "cload-pairs", "cload-tabix"):
+                kk += 1
+                inner = {"cmd": cmd, "metadata": mi + 1, "assembly": asm}
+                if only is not None and only != inner:
+                    continue
+                R.order = (R.order[0], kk)
+                R.ev(1, 1)
+                R.add("transitions", 2)
+                R.cls("meta")
+                R.cls("meta-cli:" + cmd)
+                out = scratch.fresh()
+                extra = ["--metadata", mf] + (["--assembly", asm] if asm else [])
+                if cmd == "load":
+                    args = ["load", "-f", "coo", "--temp-dir", d] + extra + [bed, coo, out]
+                elif cmd == "cload-pairs":
+                    args = ["cload", "pairs", "--zero-based", "-c1", 2, "-p1", 3, "-c2", 4, "-p2", 5, "--temp-dir", d] + extra + [bed, pairs, out]
+                else:
+                    args = ["cload", "tabix", "--zero-based", "-c2", 4, "-p2", 5] + extra + [bed, gz, out]
+                try:
+                    code, so, exc = build.cli(args)
+                    if code != 0 or exc is not None:
+                        R.mismatch("create-raises:cli", inner, f"code={code} exc={exc!r:.200}")
+                        continue
+                    info = cooler.Cooler(out).info
+                    if json.dumps(info.get("metadata"), sort_keys=True) != json.dumps(md, sort_keys=True):
+                        R.mismatch("metadata-roundtrip", inner, f"got={info.get('metadata')!r} want={md!r}")
+                    if info.get("genome-assembly") != (asm or "unknown"):
+                        R.mismatch("assembly-roundtrip", inner, f"got={info.get('genome-assembly')!r} want={(asm or 'unknown')!r}")
+                finally:
+                    scratch.rm(out)
+    scratch.rm(d)
+
+
 def _samepath(R, unit, only):
     n, symm, dest = unit["n"], unit["symm"], unit["dest"]
     table = ((2,) * ((n + 1) // 2),) + (((2,) * (n - (n + 1) // 2),) if n > 1 else ())
@@ -462,6 +523,9 @@ def run(unit, R, tier, only=None):
     leg = unit["leg"]
     if leg == "samepath":
         _samepath(R, unit, only)
+        return
+    if leg == "meta-cli":
+        _meta_cli(R, only)
         return
     if leg == "grid":
         t = _tables(4)[unit["t"]]
